@@ -195,6 +195,10 @@ class PathEnum:
         if re.search(r'clone::Clone::clone$|ops::Deref::deref$', d) and args:
             return deref(args[0])
         res = t['callee'].get('resolved') or ''
+        if res not in self.F.fns:
+            tg = self.F.call_targets(self.fn, t)
+            if len(tg) == 1:
+                res = next(iter(tg))     # std trampoline with a unique local target (e.g. Into::into -> From::from)
         return T('call', res if res in self.F.fns else (d or res), args)
 
 
@@ -391,3 +395,70 @@ def find_calls(t, pat):
 
 def mentions(t, needle):
     return any(s == needle for s in subterms(t))
+
+
+# ---------------------------------------------------------------- normal forms
+def substitute(t, args):
+    if not isinstance(t, tuple) or not t:
+        return t
+    if t[0] == 'param':
+        i = t[1] - 1
+        return args[i] if i < len(args) else t
+    return tuple(substitute(x, args) if isinstance(x, tuple) else ([substitute(y, args) for y in x] if isinstance(x, list) else x) for x in t)
+
+
+def simplify(t):
+    """re-apply field selection after substitution: field(adt/tuple, i) -> component; &*x -> x"""
+    if not isinstance(t, tuple) or not t:
+        return t
+    t = tuple(simplify(x) if isinstance(x, tuple) else x for x in t)
+    if t[0] == 'field':
+        base = deref(t[1])
+        if isinstance(base, tuple) and base:
+            if base[0] == 'tuple' and str(t[2]).isdigit() and int(t[2]) < len(base[1]):
+                return base[1][int(t[2])]
+            if base[0] == 'adt' and isinstance(t[2], str):
+                return T('field', base, t[2])
+    if t[0] == 'ref' and isinstance(t[1], tuple) and t[1] and t[1][0] == 'ref':
+        return t[1]
+    return t
+
+
+_INLINE_CACHE = {}
+
+
+def normalize(F, t, depth=4):
+    """inline calls to local functions whose body is a single unconditional path (pure helpers /
+    forwarders), so that outcomes are compared at the level of what is finally constructed"""
+    if not isinstance(t, tuple) or not t or depth <= 0:
+        return t
+    if t[0] == 'call':
+        args = tuple(normalize(F, a, depth) for a in t[2])
+        g = F.fns.get(t[1])
+        if g is not None and not g.has_loop():
+            key = g.name
+            if key not in _INLINE_CACHE:
+                try:
+                    ps = PathEnum(F, g, max_paths=8).run()
+                    _INLINE_CACHE[key] = ps[0][1] if len(ps) == 1 and not ps[0][0] else None
+                except Undecided:
+                    _INLINE_CACHE[key] = None
+            body = _INLINE_CACHE[key]
+            if body is not None and body[0] not in ('unknown-write', 'lit', 'unit', 'undef'):
+                return normalize(F, simplify(substitute(body, args)), depth - 1)
+        return T('call', t[1], args)
+    return tuple(normalize(F, x, depth) if isinstance(x, tuple) and x and isinstance(x[0], str) else
+                 (tuple(normalize(F, y, depth) for y in x) if isinstance(x, tuple) else x) for x in t)
+
+
+def strip_refs(t):
+    """drop reference wrappers everywhere (borrows do not change which value is projected)"""
+    if not isinstance(t, tuple) or not t:
+        return t
+    if t[0] == 'ref':
+        return strip_refs(t[1])
+    return tuple(strip_refs(x) if isinstance(x, tuple) else x for x in t)
+
+
+def normal_form(F, t):
+    return show(simplify(strip_refs(normalize(F, t))))
